@@ -69,7 +69,7 @@ PROPS = {
     'C11': dict(traits=['Default'], theorems=['DW.C11_body', 'DW.C11_validated'], enums=['default', 'foreign'], configs_quick=['default', 'safe', 'zod'], design='7/C11'),
     'C12': dict(tables=True, traits=['PartialEq', 'PartialOrd', 'Ord'], theorems=['DW.C12_validated', 'DW.C12_no_ub_eq', 'DW.C12_no_ub_ord', 'DW.C12_safe_no_unsafe'],
                 enums=['incomparable', 'discriminants'], configs_quick=['default', 'safe', 'nightly', 'zod'], unsafe_scan=True, design='7/C12'),
-    'C13': dict(traits=STD, theorems=['DW.C13_eq_cfg_independent', 'DW.C13_ord_cfg_independent', 'DW.C13_untouched_traits',
+    'C13': dict(tables=True, traits=STD, theorems=['DW.C13_eq_cfg_independent', 'DW.C13_ord_cfg_independent', 'DW.C13_untouched_traits',
                                       'DW.C13_zeroize_inert', 'DW.C13_forgetDiscr'],
                 enums=['discriminants', 'incomparable', 'foreign'], configs_quick=ALL_CONFIGS, cross_config=True, design='7/C13'),
     'C14': dict(tables=True, traits=None, part='all', theorems=['DW.C14_no_method_calls', 'DW.C14_core_paths_rooted', 'DW.C14_trait_path', 'DW.C14_crate_option', 'DW.C14_fn_paths_rooted',
